@@ -33,7 +33,7 @@ pub fn for_trace(trace: &Trace, s: &Session) -> Box<dyn Monitor> {
         "C14" => Box::new(SixelMonitor::default()),
         "C09" => Box::new(crate::mon_term::CaretMonitor::new(trace, s)),
         "C10" => Box::new(crate::mon_term::UnicodeMonitor::new(trace)),
-        "C16" => Box::new(crate::mon_term::PaletteMonitor::new(s)),
+        "C16" => Box::new(crate::mon_term::PaletteMonitor::new(trace, s)),
         "C20" => Box::new(crate::mon_term::CanvasMonitor::new(trace)),
         "C01" | "C03" => Box::new(crate::mon_term::ReachMonitor::new(trace)),
         _ => Box::new(NoMonitor),
